@@ -5,10 +5,10 @@ CONF = dict(
     props='Props/C11.v',
     rule=('c11.hist: histories of 4..45 calls of the real core/client.IPClient (NTS enabled, real ntske.Fetcher) against the real NTS-KE server (TLS 1.3, run-time certificate) '
           'and the real NTP listener (server.StartIPServer) sharing one real ntske.Provider, through a relay of the harness that delivers, loses the request, loses the reply, '
-          'flips one bit of the reply, replays an earlier reply, duplicates the request, lets the client run into its deadline, or makes a needed key exchange fail; shapes: '
+          'flips one bit of the reply, replays an earlier reply, duplicates the request, lets the client run into its deadline, makes a needed key exchange fail, or injects a forged datagram with cleartext cookie fields ahead of the genuine reply; shapes: '
           'loss-free, k = 0..9 consecutive losses then recovery (every pool level 8..0), complete drain and re-keying (once or twice), random mixes, provider aged by '
           '1/23/25/30/47/49 h between calls (key rotation while old cookies stay valid), aged by 73..200 h (keys of the pooled cookies expire: server silent, pool drains, '
-          're-key). Recorded per call: request and reply datagrams, whether the cookie opens under a valid key, the reply opened with miscreant, every reply cookie opened the '
+          're-key), a client quiet for two rotations but less than 72 h (must still be answered), loss-free operation across 4..6 rotations and more than 72 h in all, forged datagrams at every pool level. Recorded per call: request and reply datagrams, whether the cookie should open (under a key that was handed out as current and whose 72 h are not over - kept by the harness, independent of what the provider still holds), the current key id of the provider right after the reply, the reply opened with miscreant, every reply cookie opened the '
           'way the server opens cookies, pool and keys of the fetcher afterwards (verif hook), completed TLS handshakes. c11.srv: authenticated requests of any shape (1..3 '
           'cookies, 0..40 placeholders of 0..128 bytes, identifiers of 32..164 bytes) built with the real encoder and sent to the real listener. c11.req / c11.resp: '
           'nts.NewRequestPacket / NewResponsePacket + EncodePacket on crafted pools and cookie lists (pool level 0..14, cookie lengths 0..1100 dense around every length at '
@@ -41,7 +41,7 @@ CONF = dict(
     explanation=('oracle clauses: request <= 1024 bytes, tiles into extension fields, exactly one unique identifier, one cookie field, authenticator last, everything else typed '
                  '0x0304 and as long as the cookie, one placeholder per missing cookie unless one more would not fit; cookie never sent before, taken from the pool, gone from the '
                  'pool afterwards; pool <= 8, not smaller after an authenticated reply; key exchange only when the pool is empty; server answers every request whose cookie opens; '
-                 'reply <= 1024, well formed, authenticates under S2C, one new cookie per requested field (fewer only if one more would not fit), each new, each opening under a valid key to the session keys; '
+                 'reply <= 1024, well formed, authenticates under S2C, one new cookie per requested field (fewer only if one more would not fit), each new, each sealed under the provider\'s current key and opening under a valid key to the session keys; every pool cookie was pooled before, came with this call\'s key exchange or inside the authenticated reply, none from a forged datagram; '
                  'a process that dies during a history is a failure'),
     timeout_quick=900, timeout_thorough=3000,
 )
